@@ -112,10 +112,10 @@ class Universe:
         self.hash[slot] = dsha(raw)
         self.slot_of_hash[self.hash[slot]] = slot
 
-    def _coinbase_raw(self, bid, height):
+    def _coinbase_raw(self, bid, height, cb=None):
         tag = struct.pack('<I', height) + b'/verif/' + struct.pack('<H', bid)
-        outs = [(v, SCRIPTS[s]) for s, v in FUNDING] if bid == 0 else [(50, SCRIPTS[MINER])]
-        return ser_tx([(ZERO, 0xffffffff, tag, 0xffffffff)], outs, 0)
+        pays = FUNDING if bid == 0 else (cb if cb is not None else [(MINER, 50)])
+        return ser_tx([(ZERO, 0xffffffff, tag, 0xffffffff)], [(v, SCRIPTS[s]) for s, v in pays], 0)
 
     def _slot_raw(self, s, nonce=None):
         d = SLOTS[s]
@@ -125,13 +125,13 @@ class Universe:
             nonce = self.nonces.get(s, s)
         return ser_tx(ins, outs, nonce)
 
-    def coinbase(self, bid, height):
-        '''Raw coinbase of block id bid (at the given height) and its slot id.'''
+    def coinbase(self, bid, height, cb=None):
+        '''Raw coinbase of block id bid (at the given height, paying cb) and its slot id.'''
         if bid == 0:
             return CB, self.genesis_cb
-        key = (bid, height)
+        key = (bid, height, tuple(map(tuple, cb)) if cb is not None else None)
         if key not in self._cb_cache:
-            self._cb_cache[key] = self._coinbase_raw(bid, height)
+            self._cb_cache[key] = self._coinbase_raw(bid, height, cb)
         # (re-)register: the same block id sits at different heights in different scenarios
         self._register(CB + bid, self._cb_cache[key])
         return CB + bid, self._cb_cache[key]
@@ -145,12 +145,14 @@ class Universe:
 
 
 class Block:
-    def __init__(self, uni, bid, parent, height, slots):
-        '''slots: regular tx slots of the block in order (coinbase is added in front).'''
+    def __init__(self, uni, bid, parent, height, slots, cb=None):
+        '''slots: regular tx slots of the block in order (coinbase is added in front);
+        cb: outputs [(script, value)] of the coinbase (default: 50 to the miner script).'''
         self.bid = bid
         self.parent = parent
         self.height = height
-        cb_slot, cb_raw = uni.coinbase(bid, height)
+        self.cb = [list(x) for x in (FUNDING if bid == 0 else (cb if cb is not None else [(MINER, 50)]))]
+        cb_slot, cb_raw = uni.coinbase(bid, height, cb)
         self.slots = [cb_slot] + list(slots)
         raws = [cb_raw] + [uni.raw[s] for s in slots]
         self.tx_hashes = [dsha(r) for r in raws]
@@ -171,10 +173,10 @@ class Tree:
         self.by_hex = {}
         self.add(0, None, [])
 
-    def add(self, bid, parent_bid, slots):
+    def add(self, bid, parent_bid, slots, cb=None):
         parent = self.blocks[parent_bid] if parent_bid is not None else None
         height = parent.height + 1 if parent else 0
-        b = Block(self.uni, bid, parent, height, slots)
+        b = Block(self.uni, bid, parent, height, slots, cb)
         self.blocks[bid] = b
         self.by_hex[b.hex_hash] = b
         return b
